@@ -102,6 +102,43 @@ TEXT = {
             'Unicode padding is expressed through trim but the lemma trim(pad++x++pad) = trim x is not proved. Independent '
             'Python statement of the rules as oracle on line lists and blocks.', 'DESIGN.md section 5 C15',
             'Coq proof (decision table as (bi-)implications, fold laws) + independent rules oracle'),
+    'C07': ('Coq theorems over a world model (HttpServer/ClientConnection mirrored over the connection model + an explicit '
+            'kernel model), for every client behaviour, every order of ready events and ANY choice of unused descriptor numbers '
+            'by accept (numbers of closed connections may be reused): an outstanding token\'s descriptor still names the '
+            'connection instance that issued it (a connection with an outstanding token is never reaped: in-flight count = '
+            'number of its tokens); respond changes only that connection and drops the response when it is closed; events '
+            'touch only the connection they name; bytes a connection writes are a prefix of the serialisations enqueued on it '
+            '(C06). PARTIAL: no single end-to-end provenance theorem; delivery to the peer is K3 (kernel contract). Decided on '
+            'real Unix sockets with tagged requests and echoing responses, incl. close-with-in-flight + reconnect + late answer.',
+            'DESIGN.md section 5 C07', 'Coq proof (world invariant, inductive over events/respond/flush/sweep) + real-socket correspondence'),
+    'C08': ('Coq theorems: the interest invariant (state / pending output / epoll interest agree) holds between API calls and is '
+            'kept by polling (any event order), responding and flushing, which never fail (bar the u32 in-flight overflow); no '
+            'lost wake-up (unread bytes on a connection awaiting input, unsent output, hang-up or a waiting client enable the '
+            'poll); no spin (nothing ready once no input, no unsent output and no waiting client remain, requests may be '
+            'unanswered); yields = the whole-stream parser\'s deliveries for whatever read sizes the kernel chose (C01). '
+            'PARTIAL: the progress measure / finitely-many-polls and end-to-end delivery are not proved; responses larger than '
+            'the socket buffer are not modelled. Real-socket histories with irregular polls and respond-then-flush check '
+            'yield counts, full delivery and quiescence.', 'DESIGN.md section 5 C08',
+            'Coq proof (interest invariant + readiness lemmas) + real-socket correspondence'),
+    'C09': ('Coq theorems: from every world satisfying the invariant, for every batch of events allowed by the kernel contract '
+            'in any order, the polling function yields and keeps the invariant (never InvalidWrite, never the unwrap panic; only '
+            'other outcome: u32 overflow of an in-flight counter); handling an event leaves every other connection untouched; '
+            'after the sweep no entry is closed-with-nothing-pending-and-nothing-in-flight; respond and flush keep the invariant. '
+            'Real-socket histories: a witness doing round trips among clients that send garbage, half-close, close, stop reading, '
+            'with late or missing answers.', 'DESIGN.md section 5 C09',
+            'Coq proof (invariant by induction over event batches) + real-socket correspondence'),
+    'C10': ('Coq theorems: |connections| <= 10 in every world satisfying the invariant; a listener event refuses iff the table '
+            'is full, then no entry changes and the refused client gets exactly the fixed message (literal-tied: 503, Connection: '
+            'close, Content-Length: 40, 40-byte body) and the server end is closed; otherwise a new entry with the current limit; '
+            'descriptors are distinct keys; entries leave the table exactly when done. Descriptor census (/proc/self/fd) and '
+            'refusal bytes are checked on real sockets around the capacity boundary.', 'DESIGN.md section 5 C10',
+            'Coq proof (invariant + decision rule) + real-socket correspondence with descriptor census'),
+    'C18': ('Coq theorems: a signalled kill switch puts its event in every batch (poll enabled); whatever is handled before it, in '
+            'any order, from any world satisfying the invariant, the poll reports Shutdown (bar the u32 overflow); unsignalled, '
+            'its event never occurs and no event changes the flag. Relies on K4 (batch holds all ready descriptors: events array '
+            'size MAX_CONNECTIONS + 2, literal-tied) and K6. Real-socket histories with the switch signalled at random points, '
+            'each compared with a twin run without a switch.', 'DESIGN.md section 5 C18',
+            'Coq proof (any-order batch theorem) + real-socket correspondence with twin runs'),
 }
 
 NOTE = ('Trusted: Coq kernel; hand-written model tied to /repo by literal regeneration (gen/srclit.py) and '
